@@ -1494,3 +1494,14 @@ package zygo
 //@ ghost tildeJustRead := arg1.typ == TokenTilde @after call AppendToken[*]
 //@ C15 assert tilde-does-not-swallow-a-delimiter @before call WriteRune[*]: tildeJustRead ==> !opensToken(arg1)
 //@ C15 loop 0 invariant rescan-after-tilde: tildeJustRead ==> lexer.state == LexerNormal && (opensToken(r) || r == 39 || r == 96 || r == 126 || r == 94)
+
+// C17: construction. A record built for a declared struct is checked member by member with the
+// same field check the write routes use: each key of the new record with the value stored under
+// it, and the first rejection is what the caller gets.
+//@ func (*RegisteredType).TypeCheckRecord
+//@ ghost stored := ret0 @after call HashGet[0]
+//@ C17 assert checks-each-member-with-its-value @before call TypeCheckField[0]: arg0 == hash && arg1 == key && arg2 == stored
+//@ ghost rejected := false @entry
+//@ ghost rejected := ret0 != nil @after call TypeCheckField[0]
+//@ C17 ensures rejection-is-reported: r0 == nil ==> !rejected
+//@ C17 loop 0 invariant !rejected
